@@ -536,7 +536,7 @@ pub fn c07(ctx: &mut Ctx, layer: &str) {
         "miri" => sz.g1 = if ctx.thorough { 600 } else { 40 },
         "vg" => sz.g1 = 300,
         _ => {
-            sz.g1 = if ctx.thorough { 1_000_000 } else { 60_000 };
+            sz.g1 = if ctx.thorough { 3_000_000 } else { 60_000 };
             sz.g2_cap = if ctx.thorough { 4096 } else { 256 };
         }
     }
@@ -720,7 +720,7 @@ pub fn c08(ctx: &mut Ctx, layer: &str) {
         "vg" => 400,
         _ => {
             if ctx.thorough {
-                2_000_000
+                8_000_000
             } else {
                 200_000
             }
@@ -1042,7 +1042,7 @@ pub fn c14(ctx: &mut Ctx, layer: &str) {
             sz.g3p = vec![];
         }
         _ => {
-            sz.g1 = if ctx.thorough { 100_000 } else { 8_000 };
+            sz.g1 = if ctx.thorough { 400_000 } else { 8_000 };
             sz.g2_cap = if ctx.thorough { 512 } else { 48 };
             sz.g3 = vec![127, 128, 16_383, 16_384];
             sz.g3p = vec![127, 128];
